@@ -72,7 +72,9 @@ var limit = 9
 
 var kinds = []string{"layers", "scenarios", "steps"}
 
-var safeNames = []string{"a", "b", "c", "x1", "two words", "é", "v1.2", "a.b", "CamelCase", "under_score", "dash-ed", "layers2", "idx"}
+var outStems = []string{"o", "o", "docs", "logs", "diagrams", "pages", "v1.2", "a.b", "tags"}
+
+var safeNames = []string{"docs", "logs", "bugs", "a", "b", "c", "x1", "two words", "é", "v1.2", "a.b", "CamelCase", "under_score", "dash-ed", "layers2", "idx"}
 var trickyNames = []string{"index", "layers", "scenarios", "steps", "a.svg", "b.svg", "index.svg", "x.svg", "..", ".", "../victim", "../../victim", "../../../victim",
 	"../x", "a/b", "/abs", "a/", "/", "a/../b", "../o", "../o.svg", "...", "a/index", "layers/x"}
 
@@ -194,7 +196,7 @@ func snapshot(root string) map[string]entry {
 const pwdRel = "/d1/d2/d3/d4/d5/work"
 
 // sandbox layout (relative to the sandbox root R; the CLI runs with PWD = R/d1/d2/d3/d4/d5/work)
-func buildSandbox(root, src string, stale bool) error {
+func buildSandbox(root, src string, stale bool, stem string) error {
 	files := map[string]string{
 		"/keep.txt": "R", "/d1/keep.txt": "1", "/d1/d2/keep.txt": "2", "/d1/d2/d3/keep.txt": "3", "/d1/d2/d3/d4/keep.txt": "4",
 		"/d1/d2/d3/d4/d5/keep.txt": "5", "/d1/d2/d3/d4/d5/victim/keep.txt": "v5", "/d1/d2/d3/d4/d5/victim.svg": "vs5",
@@ -202,10 +204,15 @@ func buildSandbox(root, src string, stale bool) error {
 		pwdRel + "/x.svg": "xw", pwdRel + "/out/keep.txt": "o", pwdRel + "/out/victim/keep.txt": "vo", pwdRel + "/out/victim.svg": "vso",
 		pwdRel + "/out/x.svg": "xo", pwdRel + "/out/o2.svg": "o2", pwdRel + "/out/o2/keep.txt": "o2k", pwdRel + "/out/index.svg": "io",
 	}
+	// sentinels next to the output: a directory and a file for every proper prefix of the output stem
+	for i := 1; i < len(stem); i++ {
+		files[pwdRel+"/out/"+stem[:i]+"/keep.txt"] = "prefix dir " + stem[:i]
+		files[pwdRel+"/out/"+stem[:i]+".txt"] = "prefix file " + stem[:i]
+	}
 	if stale {
-		files[pwdRel+"/out/o.svg"] = "old single"
-		files[pwdRel+"/out/o/stale.svg"] = "stale"
-		files[pwdRel+"/out/o/layers/stale2.svg"] = "stale2"
+		files[pwdRel+"/out/"+stem+".svg"] = "old single"
+		files[pwdRel+"/out/"+stem+"/stale.svg"] = "stale"
+		files[pwdRel+"/out/"+stem+"/layers/stale2.svg"] = "stale2"
 	}
 	for p, c := range files {
 		if err := os.MkdirAll(filepath.Dir(root+p), 0o755); err != nil {
@@ -234,8 +241,8 @@ func runCLI(pwd string, args ...string) (errs string) {
 	return ""
 }
 
-func treeCase(c *hl.Ctx, idx int, src string, stale bool) map[string]any {
-	in := map[string]any{"src": src, "stale": stale, "out": pwdRel + "/out/o.svg"}
+func treeCase(c *hl.Ctx, idx int, src string, stale bool, stem string) map[string]any {
+	in := map[string]any{"src": src, "stale": stale, "stem": stem, "out": pwdRel + "/out/" + stem + ".svg"}
 	out := map[string]any{}
 	res := map[string]any{"k": "tree", "in": in, "out": out}
 	g, _, err := d2compiler.Compile("in.d2", strings.NewReader(src), nil)
@@ -247,11 +254,11 @@ func treeCase(c *hl.Ctx, idx int, src string, stale bool) map[string]any {
 	out["tree"] = graphTree(g)
 	root := filepath.Join(c.Work, "sb", fmt.Sprintf("t%d", idx))
 	os.RemoveAll(root)
-	if err := buildSandbox(root, src, stale); err != nil {
+	if err := buildSandbox(root, src, stale, stem); err != nil {
 		panic(err)
 	}
 	before := snapshot(root)
-	cli := runCLI(root+pwdRel, "in.d2", "out/o.svg")
+	cli := runCLI(root+pwdRel, "in.d2", "out/"+stem+".svg")
 	after := snapshot(root)
 	os.RemoveAll(root)
 	out["cliErr"] = cli
@@ -299,7 +306,11 @@ func run(c *hl.Ctx) error {
 		if cs["k"] == "path" {
 			c.Emit(pathCase(in["a"].(string), in["b"].(string), in["c"].(string)))
 		} else {
-			c.Emit(treeCase(c, 0, in["src"].(string), in["stale"].(bool)))
+			stem, _ := in["stem"].(string)
+			if stem == "" {
+				stem = "o"
+			}
+			c.Emit(treeCase(c, 0, in["src"].(string), in["stale"].(bool), stem))
 		}
 		return nil
 	}
@@ -326,6 +337,7 @@ func run(c *hl.Ctx) error {
 		idx   int
 		src   string
 		stale bool
+		stem  string
 	}
 	var jobs []job
 	fixedSrc := []string{
@@ -336,7 +348,7 @@ func run(c *hl.Ctx) error {
 		"x\nlayers: { a: { y } }\nscenarios: { b: { z } }\nsteps: { c: { z } }\n",
 	}
 	for i, s := range fixedSrc {
-		jobs = append(jobs, job{i, s, i%2 == 0})
+		jobs = append(jobs, job{i, s, i%2 == 0, outStems[(i*2)%len(outStems)]})
 		c.Count("tree:fixed")
 	}
 	for i := 0; i < nt; i++ {
@@ -350,7 +362,9 @@ func run(c *hl.Ctx) error {
 		if sb.Len() == 0 {
 			sb.WriteString("x\n")
 		}
-		jobs = append(jobs, job{len(fixedSrc) + i, sb.String(), r.Intn(2) == 0})
+		stem := outStems[r.Intn(len(outStems))]
+		c.Count("tree:stem=" + stem)
+		jobs = append(jobs, job{len(fixedSrc) + i, sb.String(), r.Intn(2) == 0, stem})
 		if nasty {
 			c.Count("tree:nasty-names")
 		} else {
@@ -367,7 +381,7 @@ func run(c *hl.Ctx) error {
 		go func(i int, j job) {
 			defer wg.Done()
 			defer func() { <-sem }()
-			results[i] = treeCase(c, j.idx, j.src, j.stale)
+			results[i] = treeCase(c, j.idx, j.src, j.stale, j.stem)
 		}(i, j)
 	}
 	wg.Wait()
